@@ -263,6 +263,27 @@ CATALOGUE = [
     ('c20_self_locking_settable', 'C20', P,
      "        return self.__self_locking\n",
      "        return self.__self_locking\n\n    @self_locking.setter\n    def self_locking(self, value):\n        self.__self_locking = value\n"),
+    # ---- C07
+    ('c07_timer_raw_values', 'C07', 'gearpy/sensors/timer.py',
+     "        return (current_time >= self.start_time) and \\\n            ((current_time - self.start_time) <= self.duration)",
+     "        return (current_time.value >= self.start_time.value) and \\\n            ((current_time.value - self.start_time.value) <= self.duration.value)"),
+    ('c07_motor_speed_ratio_raw', 'C07', M,
+     "                value=(1 - self.angular_speed /\n                       self.no_load_speed)*self.maximum_torque.value,",
+     "                value=(1 - self.angular_speed.value /\n                       self.no_load_speed.value)*self.maximum_torque.value,"),
+    ('c07_rpm_factor', 'C07', 'gearpy/units/units.py',
+     "'rpm': 2*pi/60,", "'rpm': 2*pi/6,"),
+    ('c07_gcm2_factor', 'C07', 'gearpy/units/units.py',
+     "'gcm^2': 1e-7,", "'gcm^2': 1e-6,"),
+    ('c07_pressure_angle_exact_lookup', 'C07', 'gearpy/mechanical_objects/mechanical_object_base.py',
+     "                WORM_GEAR_AND_WHEEL_AVAILABLE_PRESSURE_ANGLES.index(\n                    pressure_angle\n                ),",
+     "                [a.value for a in WORM_GEAR_AND_WHEEL_AVAILABLE_PRESSURE_ANGLES].index(\n                    pressure_angle.to('deg').value\n                ),"),
+    ('c07_stop_threshold_raw', 'C07', 'gearpy/utils/stop_condition/operator.py',
+     "        return sensor_value >= threshold\n", "        return sensor_value.value >= threshold.value\n"),
+    ('c07_reach_braking_angle_raw', 'C07', 'gearpy/motor_control/rules/utils.py',
+     "            )*braking_angle.value,\n            unit=braking_angle.unit",
+     "            )*braking_angle.value,\n            unit='rad'"),
+    ('c07_length_dm_factor', 'C07', 'gearpy/units/units.py',
+     "'dm': 1e-1,", "'dm': 1e-2,", 1),
 ]
 
 
@@ -290,6 +311,7 @@ def run_one(mut, n, tier='quick', extra_env=None):
         env['PYTHONPATH'] = scratch + os.pathsep + ROOT
         env['GEARPY_SRC'] = scratch
         env['GPSIM_SHRINK_S'] = '10'
+        env['GPSIM_OUT'] = os.path.join(scratch, 'out')
         env.update(extra_env or {})
         t0 = time.time()
         cmd = [sys.executable, '-m', 'gpsim.check', prop, '--tier', tier,
